@@ -738,3 +738,121 @@ func panicTailNorm(paths []*Path) []*Path {
 	}
 	return out
 }
+
+// tryExitNorm: a `try…` helper with a loop that returns a failure from inside the loop, inlined into its `must` wrapper that panics on
+// that failure (`if err := ego.trySet(values); err != nil { panic(err.Error()) }`): SX shows the helper's early return as an iteration
+// path ending in "return", and one function-level path per such exit that repeats the exit's decisions after the loop and then panics.
+// When every continuation of an exit decides nothing else, has no effect and panics, the exit IS a panic inside the loop (what the
+// un-split method had), and the continuation paths are dropped. Exits whose continuation does anything else are left alone.
+func tryExitNorm(paths []*Path) []*Path {
+	type cont struct {
+		idx int
+		p   *Path
+	}
+	// group function-level paths by their last loop
+	lastLoop := func(p *Path) (int, *LoopRec) {
+		for i := len(p.Steps) - 1; i >= 0; i-- {
+			if p.Steps[i].Kind == "loop" && p.Steps[i].Loop != nil {
+				return i, p.Steps[i].Loop
+			}
+		}
+		return -1, nil
+	}
+	byLoop := map[*LoopRec][]cont{}
+	for i, p := range paths {
+		if p.Why != "" {
+			return paths
+		}
+		if _, l := lastLoop(p); l != nil {
+			byLoop[l] = append(byLoop[l], cont{i, p})
+		}
+	}
+	drop := map[int]bool{}
+	repl := map[*LoopRec]*LoopRec{}
+	for l, group := range byLoop {
+		var exits []int
+		for qi, q := range l.Iter {
+			if q.End == "return" {
+				exits = append(exits, qi)
+			}
+		}
+		if len(exits) == 0 || len(group) < 2 {
+			continue
+		}
+		newIter := append([]*Path(nil), l.Iter...)
+		okAll := true
+		var dropped []int
+		for _, qi := range exits {
+			q := l.Iter[qi]
+			qc := q.Conds()
+			if len(qc) == 0 {
+				okAll = false
+				break
+			}
+			matched := 0
+			var val []Term
+			for _, g := range group {
+				k, _ := lastLoop(g.p)
+				post := g.p.Steps[k+1:]
+				// the continuation repeats the exit's decisions, in order, and decides nothing else; no effects
+				if len(post) != len(qc) {
+					continue
+				}
+				same := true
+				for j, st := range post {
+					if st.Kind != "cond" || st.Cond.Truth != qc[j].Truth || !sameTerm(eraseEpochs(st.Cond.T), eraseEpochs(qc[j].T)) {
+						same = false
+						break
+					}
+				}
+				if !same {
+					continue
+				}
+				if g.p.End != "panic" {
+					okAll = false
+					break
+				}
+				matched++
+				val = g.p.Vals
+				dropped = append(dropped, g.idx)
+			}
+			if !okAll || matched != 1 {
+				okAll = false
+				break
+			}
+			nq := *q
+			nq.End = "panic"
+			nq.Vals = val
+			newIter[qi] = &nq
+		}
+		if !okAll {
+			continue
+		}
+		nl := *l
+		nl.Iter = newIter
+		repl[l] = &nl
+		for _, d := range dropped {
+			drop[d] = true
+		}
+	}
+	if len(repl) == 0 {
+		return paths
+	}
+	debugf("tryExitNorm: %d paths, %d loops rewritten, %d continuation paths dropped\n", len(paths), len(repl), len(drop))
+	var out []*Path
+	for i, p := range paths {
+		if drop[i] {
+			continue
+		}
+		k, l := lastLoop(p)
+		if nl, ok := repl[l]; ok && l != nil {
+			q := *p
+			q.Steps = append([]Step(nil), p.Steps...)
+			q.Steps[k].Loop = nl
+			out = append(out, &q)
+			continue
+		}
+		out = append(out, p)
+	}
+	return out
+}
